@@ -551,10 +551,14 @@ class RaggedArray(IndexableArray, np.lib.mixins.NDArrayOperatorsMixin):
         return ra - offsets[:, None]
 
     def _row_accumulate(self, operator, dtype=None):
-        starts = self.ravel()[self._shape.starts]
+        if self.size == 0:
+            return self.__class__(operator.accumulate(self.ravel(), dtype=dtype), self._shape)
+        # trailing empty rows start at `size`, one past the buffer: they have no cells, any valid position does
+        row_starts = np.minimum(self._shape.starts, self.size-1)
+        starts = self.ravel()[row_starts]
         cm = operator.accumulate(self.ravel(), dtype=dtype)
         offsets = INVERSE_FUNCS[operator][0](
-            starts, cm[self._shape.starts]
+            starts, cm[row_starts]
         )  # TODO: This is the inverse
         ra = self.__class__(cm, self._shape)
         return INVERSE_FUNCS[operator][1](ra, offsets[:, None])
